@@ -666,7 +666,8 @@ def run(ctx):
         'permutation (<= %d fields, rotations+reversal beyond), an unknown '
         'field code at every position - are parsed by parseMessage. Plus the'
         ' 2**27 limit at -1/0/+1/+8 bytes with real 128 MiB messages, the '
-        'reserved path and invalid names. state = message description; '
+        'reserved path and invalid names; 66000 (thorough 140000) messages '
+        'built in a row, every serial fresh and non-zero. state = message description; '
         'transition = one construct/parse call'
         % (len(BODIES), 3 if ctx.quick else 4))
     ctx.bounds = {'bodies': len(BODIES), 'member_lengths': '1..8'}
@@ -677,6 +678,51 @@ def run(ctx):
     ctx.map(_task_limits, [0])
     ctx.map(_task_fd_sequences, [0])
     ctx.map(_task_nested_construction, [0])
+    ctx.map(_task_serials, [ctx.quick])
+
+
+def _task_serials(task):
+    """a long-lived process: every one of N messages built in a row (all four
+    types, parsed with the reference parser at the ladder points) carries a
+    serial that no earlier message of the process carried, and never zero"""
+    from txdbus import message as M
+    from mcx import scale
+    quick = task
+    res = core.Result()
+    n = 66000 if quick else 140000
+    marks = set(scale.ladder(n)) | {n - 1}
+    seen = set()
+    rep = {'part': 'serials'}
+    ctor = [lambda: M.SignalMessage('/a', 'S', 'a.b'),
+            lambda: M.MethodCallMessage('/a', 'M'),
+            lambda: M.MethodReturnMessage(5),
+            lambda: M.ErrorMessage('a.b.E', 5)]
+    res.count('states')
+    res.count('nontrivial')
+    for i in range(n):
+        res.count('transitions')
+        m = ctor[i % 4]()
+        ser = m.serial
+        if i in marks or i - 1 in marks or i + 1 in marks:
+            res.count('evaluations')
+            p = R.parse_message(m.rawMessage)
+            if p['serial'] != ser:
+                res.violation('%s/serials/attribute' % PROP,
+                              'message %d of the process: serial attribute '
+                              '%r, wire %r' % (i, ser, p['serial']), rep,
+                              size=1)
+                break
+        if not ser or ser in seen:
+            res.violation('%s/serials/%s' % (PROP, 'reused' if ser else
+                                              'zero'),
+                          'message number %d built in this process got '
+                          'serial %r, which %s' % (
+                              i, ser, 'an earlier message already had'
+                              if ser else 'is not a valid serial'), rep,
+                          size=1)
+            break
+        seen.add(ser)
+    return res
 
 
 def _task_nested_construction(_):
@@ -769,6 +815,8 @@ def replay(data):
                       data['order'], extra)
     elif data['part'] == 'fdseq':
         res = _task_fd_sequences(0)
+    elif data['part'] == 'serials':
+        res = _task_serials(True)
     elif data['part'] == 'nested':
         res = _task_nested_construction(0)
     else:
